@@ -17,6 +17,9 @@ TRUSTED_COMMON = [
 ]
 
 INFO = {}
+# every correspondence session runs against BOTH build profiles of the crate: dev (debug assertions +
+# overflow checks; model mode chk = true) and release (model mode chk = false)
+BOTH = [('dev', '-checked'), ('release', '-unchecked')]
 
 
 def _p(pid, **kw):
@@ -24,20 +27,20 @@ def _p(pid, **kw):
     INFO[pid] = kw
 
 
-_p('C01', not_covered="see lean/Kodama/Props/C01.lean header")
-_p('C02')
-_p('C03')
-_p('C04')
-_p('C05')
-_p('C06')
-_p('C07')
-_p('C08')
-_p('C09')
-_p('C10')
-_p('C11')
-_p('C12', runs=[('dev', '-checked'), ('release', '-unchecked')])
-_p('C13', runs=[('dev', '-checked'), ('release', '-unchecked')])
-_p('C14')
+_p('C01', runs=BOTH)
+_p('C02', runs=BOTH)
+_p('C03', runs=BOTH)
+_p('C04', runs=BOTH)
+_p('C05', runs=BOTH)
+_p('C06', runs=BOTH)
+_p('C07', runs=BOTH)
+_p('C08', runs=BOTH)
+_p('C09', runs=BOTH)
+_p('C10', runs=BOTH)
+_p('C11', runs=BOTH)
+_p('C12', runs=BOTH)
+_p('C13', runs=BOTH)
+_p('C14', runs=BOTH)
 _p('C15', runner=run_capi.runner_c15, driver_exe='kodama-capi-driver', trusted_extra=[
     "C15: clang 14 / cargo build libkodama.a and the C driver faithfully; the Rust reference helper (capi_ref) calls kodama::linkage as any Rust caller would",
 ])
